@@ -505,3 +505,28 @@ package tchannel
 //@   label handed-out-peer-was-selected-by-choosePeer
 //@   ensures peer != nil ==> lastchosen(l) == ref(peer)
 //@   property C15
+
+// A score change of a peer (connection gained or lost, call started or ended)
+// reaches EVERY list that may hold the peer: the channel's shared list and each
+// sub-channel with an isolated list -- a list that is not told keeps selecting
+// by a stale score. fanned(m): the sub-channel map m was told (volatile).
+//@ ghostfield fanned volatile
+// (ASSUMED, trusted view for the two fan-out functions only: the list invariants
+// onPeerChange needs -- heap shape, strategy set, the peer's entry consistent --
+// hold for the lists of a channel; they are established by newPeerList and kept
+// under the list lock, which these callers cannot see)
+//@ func (l *PeerList) onPeerChange(p *Peer)
+//@   trusted
+//@   modifies allbut Channel, subChannelMap, SubChannel
+//@   property C15fan
+//@ func (subChMap *subChannelMap) updatePeer(p *Peer)
+//@   nosafety
+//@   modifies all
+//@   defines fanned(subChMap) == 1
+//@   property C15 C15fan
+//@ func (ch *Channel) updatePeer(p *Peer)
+//@   nosafety
+//@   modifies all
+//@   label isolated-lists-are-told-about-every-score-change
+//@   atcall callOnUpdateComplete fanned(old(ch.subChannels)) == 1
+//@   property C15 C15fan
